@@ -1,9 +1,12 @@
 """C01 — Caches never change what a collector's own filter decides.
 
-Leg A: coq/theories/Properties/C01.v (inductive invariant over ALL histories; Dispatch/Proofs_C01.v).
-Leg B: correspondence — seeded histories over <=4 real OS threads, <=6 collectors, a 64-entry pool of real static
-       callsites, ONE PROCESS PER HISTORY; per op: who received event/new_span, probe results, get_default identity,
-       LevelFilter::current() — implementation vs Dispatch/Model.v (`run_case` under vm_compute).
+Leg A: coq/theories/Properties/C01.v (inductive invariant over ALL histories; Dispatch/Proofs_C01.v) + the theorems that
+       tie the hand-written model to the shapes translators/dispatch_shape.py reads off the source on every run
+       (level_enabled!, the guards of event!/span!/enabled!, the interest byte, Interest::and, callsite.rs; Proofs_Shape.v).
+Leg B: translator (every run) + correspondence — seeded histories over <=4 real OS threads, <=6 collectors, a 64-entry pool
+       of real static callsites, ONE PROCESS PER HISTORY; per op: who received event/new_span, probe results, get_default
+       identity, LevelFilter::current() — implementation vs Dispatch/Model.v (`src_run_case` under vm_compute), on TWO
+       builds of the same harness: the default one and one with tracing's `max_level_info` (STATIC_MAX_LEVEL = INFO).
 Leg C: oracle on the implementation only: every emission followed by a `getdefault t cs` query is judged against the
        *current collector's own* register_callsite/enabled answers (asked of the real object in the harness);
        every delivery, queried or not, must be accepted by the receiving collector's own filter."""
@@ -205,25 +208,30 @@ def nontrivial(pool, case):
 
 def run(ctx):
     rep = Report(ctx)
-    fx = D.f1_fixed()
     rep.rule = ("seeded histories (5-40 ops, 1-4 real threads, 1-6 collectors with level threshold x target set x static/dynamic "
-                "x optional hint, 64 real static callsites incl. two with identical metadata), one process per history. "
+                "x optional hint, 64 real static callsites (span!/event!/enabled!) incl. two with identical metadata, Dispatch::none scopes), "
+                "one process per history, on the default build and on a `max_level_info` build. "
                 "non-trivial = a drop / close / rebuild / Dispatch::new lies between two emissions at the same callsite, or two "
-                "created collectors answer register_callsite differently for an emitted callsite; distinct = distinct op list + filters")
+                "created collectors answer register_callsite differently for an emitted callsite; distinct = distinct op list + filters (+ build)")
     rep.trusted_base = ["Coq 8.16.1 kernel + vm_compute", "harness/dispatch h_dispatch.rs (recording collectors, one OS thread per model thread, one process per history)",
+                        "translators/dispatch_shape.py + rsparse.py (shape recognition; fails closed through gen_dispatch_unrecognised = [] and the C01_source_* theorems)",
                         "driver/props/c01.py generator + oracle", "std: Arc/Weak liveness, thread_local!, atomics under sequential consistency (modelled)"]
+    # ---- translator (every run): the model's dispatch.rs variant and the guard shapes are read off the source
+    d, g = D.translate(ctx, rep)
+    fx = D.model_fx(d)
     rep.assumptions = ["every API call is atomic (interleavings inside a call are C04's subject)",
                        "collector callbacks do not emit (no re-entrancy; can_enter is not modelled)",
                        "filters are the property's self-consistent filters: register_callsite never => enabled false, always => enabled true, "
                        "hint (if any) bounds every callsite not answered never (Model.wf_collector)",
                        "span handles are dropped inside the emitting op (a live Span would keep its collector alive)",
-                       "STATIC_MAX_LEVEL is a parameter of the model; the harness is the default build (TRACE); a callsite above the "
-                       "compile-time cap is compiled out by documented design and the theorem says so explicitly",
-                       "dispatch.rs variant mirrored by the model: " + ("after fixes/F1.patch" if fx else "as in /repo, F1 present (irrelevant for C01: "
-                                                                                                        "C01 judges against whatever get_default hands out)")]
+                       "STATIC_MAX_LEVEL is a parameter of the model (read from the build; level_filters.rs's feature table is read by the translator); "
+                       "a callsite above the compile-time cap is compiled out by documented design and the theorem says so explicitly",
+                       "Dispatch::from_static / no-std paths not modelled",
+                       "dispatch.rs variant read off the source on this run: " + ("repaired (fix aa353f7)" if d["fx"] else "NOT the repaired shape")]
     # ---- leg A
     rep.proof = coq_prove(ctx, "C01", ["theories/Properties/C01.vo"])
-    # ---- implementation: default build always; thorough adds a release build and a `tracing/max_level_info` build
+    D.check_source_summary(ctx, rep, d, g)
+    # ---- implementation: default build and the capped build (thorough adds a release build)
     binpath, info = D.build(ctx, rep)
     if binpath is None:
         return rep
@@ -236,33 +244,34 @@ def run(ctx):
         cases["replay"] = D.load_replay(ctx.replay)
     else:
         cases.update(D.load_corpus("C01"))
-        n = 4000 if not ctx.thorough() else 30000
+        n = 6000 if not ctx.thorough() else 30000
         for i in range(n):
             malformed = (i % 7 == 6)
             cases[("m%d" if malformed else "g%d") % i] = gen_case(ctx.rng, pool, malformed)
-    good = explore(ctx, rep, fx, "debug", binpath, info, cases)
-    if ctx.thorough() and not ctx.replay:
-        for tag, kw in (("release", {"release": True}), ("max_level_info", {"features": ["info"]})):
-            extra = {"%s:%s%d" % (tag, "m" if i % 7 == 6 else "g", i): gen_case(ctx.rng, pool, i % 7 == 6) for i in range(4000)}
+    good = explore(ctx, rep, fx, "debug", binpath, info, cases, g)
+    if not ctx.replay:
+        builds = [("max_level_info", {"capped": True}, 2000 if not ctx.thorough() else 8000)]
+        if ctx.thorough():
+            builds.append(("release", {"release": True}, 4000))
+        for tag, kw, n in builds:
             b2, info2 = D.build(ctx, rep, **kw)
             if b2 is None:
                 continue
-            # the feature build lands on the same path as the default one: keep a private copy, restore the default afterwards
-            keep = os.path.join(ctx.work, "h_dispatch_" + tag)
-            import shutil
-            shutil.copyfile(b2, keep)
-            os.chmod(keep, 0o755)
-            if tag == "max_level_info" and info2["static_max"] != 3:
-                rep.tie("build:max_level_info", False, "STATIC_MAX_LEVEL is %s, expected INFO(3)" % info2["static_max"])
-            explore(ctx, rep, fx, tag, keep, info2, extra)
-        D.build(ctx, rep)
+            extra = dict(("%s:%s" % (tag, k), v) for k, v in D.load_corpus("C01").items())
+            for i in range(n):
+                extra["%s:%s%d" % (tag, "m" if i % 7 == 6 else "g", i)] = gen_case(ctx.rng, pool, i % 7 == 6)
+            explore(ctx, rep, fx, tag, b2, info2, extra, g)
     rep.samples = [{"history": D.case_text(c).splitlines()} for c in list(good.values())[:2]] + [{"pool_entries": len(pool), "static_max": info["static_max"]}]
     return rep
 
 
-def explore(ctx, rep, fx, tag, binpath, info, cases):
+def explore(ctx, rep, fx, tag, binpath, info, cases, g):
     """Run `cases` on one build of the harness: oracle on the implementation, then the model on the same cases and the diff."""
     pool, smax = info["pool"], info["static_max"]
+    want = D.static_max_from_table(g, info["features"], info["release"])
+    rep.tie("static_max:%s" % tag, smax == want, "the build reports STATIC_MAX_LEVEL = %d, level_filters.rs's table (as read) says %d for features %s"
+            % (smax, want, info["features"]), None if smax == want else {"reported": smax, "table": g["static"]})
+    rep.count("build:%s static_max=%d" % (tag, smax), len(cases))
     ctx.log("running %d histories on the implementation" % len(cases))
     impl = D.run_impl(ctx, binpath, cases)
     bad_runs = [cid for cid in cases if cid not in impl or impl[cid]["rc"] != 0 or len(impl[cid]["out"]) != len(cases[cid]["ops"])]
@@ -284,10 +293,16 @@ def explore(ctx, rep, fx, tag, binpath, info, cases):
         for o in case["ops"]:
             rep.count("op:" + o[0])
         if nontrivial(pool, case):
-            rep.nontrivial.add(D.case_text(case))
-        for r in recs:
+            rep.nontrivial.add(("" if tag == "debug" else tag + "\n") + D.case_text(case))
+        for o, r in zip(case["ops"], recs):
             if r["k"] == "emit":
-                rep.count("emit:delivered" if r["del"] else "emit:not-delivered")
+                rep.count("emit:%s:%s" % (pool[o[2]]["kind"], "delivered" if r["del"] else "not-delivered"))
+                if pool[o[2]]["lvl"] > smax:
+                    rep.count("emit:above the compile-time cap")
+            elif r["k"] == "probe":
+                rep.count("probe:%s" % ("true" if r.get("r") else "false"))
+            elif r["k"] == "open" and o[2] == 0 and not r.get("bad"):
+                rep.count("scope:Dispatch::none")
         if vio and len(rep.violations) >= 3:
             if len(rep.violations) < 10:   # enough shrunk replays already: report the rest as found
                 rep.violation(vio[0][0], {"cols": case["cols"], "ops": case["ops"], "text": D.case_text(case), "found_in": cid, "build": tag})
